@@ -1,5 +1,6 @@
 import Usid.Proofs.Dims
 import Usid.Proofs.UnitValues
+import Usid.Proofs.Rebuild
 /-! C09 — sizes, change-rate order and unit values are recovered from any regular grid. -/
 namespace Usid.C09
 open Usid Usid.Grid Usid.Dims
@@ -94,22 +95,16 @@ theorem counts_getD (sizes rate : List Nat) (d : Nat) (hd : d < sizes.length) :
   rw [List.map_map, List.getD_eq_getElem?_getD, List.getElem?_map, List.getElem?_range hd]
   rfl
 
-/-- The reported order: a permutation of the dimensions along which the change counts never increase,
-    whose strides equal the strides of the true rate order for every dimension of size > 1, and which ranks
-    the dimensions of size > 1 exactly as the true rate order does (fastest → slowest).  Only size-1
-    dimensions may sit elsewhere — whatever tie-breaking the sort uses. -/
-theorem order_is_rate (sizes rate : List Nat) (h : ValidGrid sizes rate)
-    (hk : sizes.length ≤ npoints (sizeFn sizes) rate) :
-    let ord := getSortOrder (gridMatrix sizes rate)
+/-- The same facts for the sort applied directly to the change counts of the rows (no orientation step) -/
+theorem argsort_counts_is_rate (sizes rate : List Nat) (h : ValidGrid sizes rate) :
+    let ord := argsortRev ((gridMatrix sizes rate).map changeCountRow)
     ord.Perm rate ∧
     (∀ d, d < sizes.length → 1 < sizeFn sizes d →
       strideBefore (sizeFn sizes) ord d = strideBefore (sizeFn sizes) rate d) ∧
     ord.filter (fun d => decide (1 < sizeFn sizes d)) = rate.filter (fun d => decide (1 < sizeFn sizes d)) := by
   obtain ⟨hnd, hpos, hall⟩ := valid_facts sizes rate h
   intro ord
-  have hord : ord = argsortRev ((gridMatrix sizes rate).map changeCountRow) := by
-    show getSortOrder _ = _
-    unfold getSortOrder; rw [gridMatrix_orient sizes rate hk]
+  have hord : ord = argsortRev ((gridMatrix sizes rate).map changeCountRow) := rfl
   have hlen : ((gridMatrix sizes rate).map changeCountRow).length = sizes.length := by simp [gridMatrix]
   have hperm : ord.Perm rate := by
     rw [hord]
@@ -152,6 +147,22 @@ theorem order_is_rate (sizes rate : List Nat) (h : ValidGrid sizes rate)
       have hb' := (List.mem_filter.mp hb).2
       exact Nat.le_of_lt (hab (by simpa using ha') (by simpa using hb'))
     · exact hperm.filter _
+
+/-- The reported order: a permutation of the dimensions along which the change counts never increase,
+    whose strides equal the strides of the true rate order for every dimension of size > 1, and which ranks
+    the dimensions of size > 1 exactly as the true rate order does (fastest → slowest).  Only size-1
+    dimensions may sit elsewhere — whatever tie-breaking the sort uses. -/
+theorem order_is_rate (sizes rate : List Nat) (h : ValidGrid sizes rate)
+    (hk : sizes.length ≤ npoints (sizeFn sizes) rate) :
+    let ord := getSortOrder (gridMatrix sizes rate)
+    ord.Perm rate ∧
+    (∀ d, d < sizes.length → 1 < sizeFn sizes d →
+      strideBefore (sizeFn sizes) ord d = strideBefore (sizeFn sizes) rate d) ∧
+    ord.filter (fun d => decide (1 < sizeFn sizes d)) = rate.filter (fun d => decide (1 < sizeFn sizes d)) := by
+  have hord : getSortOrder (gridMatrix sizes rate) = argsortRev ((gridMatrix sizes rate).map changeCountRow) := by
+    unfold getSortOrder; rw [gridMatrix_orient sizes rate hk]
+  rw [hord]
+  exact argsort_counts_is_rate sizes rate h
 
 /-- the k × N values matrix: `value_d[index_d]` -/
 def valueMatrix (sizes rate : List Nat) (values : List (List Int)) : List (List Int) :=
@@ -230,13 +241,204 @@ theorem unit_values (sizes rate : List Nat) (values : List (List Int)) (names : 
   have := (List.of_mem_zip hp).1
   simpa using this
 
-/-- FULL statement for rebuilding indices from values (NOT yet proved in Lean): when the values of every
-    dimension are pairwise distinct, `create_spec_inds_from_vals` reproduces the index matrix. -/
-def rebuild_indices_statement : Prop :=
-  ∀ (sizes rate : List Nat) (values : List (List Int)),
-    ValidGrid sizes rate → values.length = sizes.length →
-    (∀ d (h : d < sizes.length), (values.getD d []).length = sizes.getD d 1 ∧ (values.getD d []).Nodup) →
-    Usid.UV.createSpecIndsFromVals (valueMatrix sizes rate values) = gridMatrix sizes rate
+/-- **Rebuilding indices from values.**  For every regular grid (any number of dimensions, sizes >= 1, any
+    storage permutation of the change rates) whose dimensions carry pairwise distinct reference values,
+    `create_spec_inds_from_vals` applied to the values matrix returns exactly the index matrix.
+    (The column loop is a mixed-radix odometer over the rows sorted by change count:
+    `Rebuild.odometer_step`.) -/
+theorem rebuild_indices (sizes rate : List Nat) (values : List (List Int))
+    (h : ValidGrid sizes rate)
+    (hvl : ∀ d, d < sizes.length → (values.getD d []).length = sizes.getD d 1 ∧ (values.getD d []).Nodup) :
+    Usid.UV.createSpecIndsFromVals (valueMatrix sizes rate values) = gridMatrix sizes rate := by
+  obtain ⟨hnd, hpos, hall⟩ := valid_facts sizes rate h
+  by_cases hk0 : sizes.length = 0
+  · have : sizes = [] := List.length_eq_zero_iff.mp hk0
+    subst this
+    simp [valueMatrix, gridMatrix, Usid.UV.createSpecIndsFromVals]
+  obtain ⟨k', hk'⟩ : ∃ k', sizes.length = k' + 1 := ⟨sizes.length - 1, by omega⟩
+  have hklen : (valueMatrix sizes rate values).length = sizes.length := by simp [valueMatrix]
+  have hrow : ∀ d, d < sizes.length → (valueMatrix sizes rate values).getD d [] =
+      (gridRow (sizeFn sizes) rate d).map (fun i => (values.getD d []).getD i 0) := by
+    intro d hd
+    simp [valueMatrix, List.getD_eq_getElem?_getD, List.getElem?_map, List.getElem?_range hd]
+  have hN : ((valueMatrix sizes rate values).headD []).length = npoints (sizeFn sizes) rate := by
+    unfold valueMatrix
+    rw [hk', List.range_succ_eq_map]
+    simp [gridRow]
+  have hNpos : 0 < npoints (sizeFn sizes) rate := prod_pos _ rate (fun e he => (hpos e he).2)
+  -- values are injective on the indices of a dimension
+  have hinj : ∀ d, d < sizes.length → ∀ a, a < sizeFn sizes d → ∀ b, b < sizeFn sizes d →
+      (values.getD d []).getD a 0 = (values.getD d []).getD b 0 → a = b := by
+    intro d hd
+    obtain ⟨hl, hn⟩ := hvl d hd
+    generalize values.getD d [] = vl at hl hn ⊢
+    intro a ha b hb e
+    have hsd : sizeFn sizes d = sizes.getD d 1 := rfl
+    have ha' : a < vl.length := by rw [hl, ← hsd]; exact ha
+    have hb' : b < vl.length := by rw [hl, ← hsd]; exact hb
+    exact (List.getD_inj ha' hb' hn).mp e
+  have hgi : ∀ d, d < sizes.length → ∀ r, gridIdx (sizeFn sizes) rate r d < sizeFn sizes d := by
+    intro d hd r
+    unfold gridIdx
+    exact Nat.mod_lt _ (hpos d (hall d hd)).2
+  -- the change counts of the value rows are those of the index rows
+  have hcounts : (valueMatrix sizes rate values).map Usid.UV.changeCountInt =
+      (gridMatrix sizes rate).map changeCountRow := by
+    unfold valueMatrix gridMatrix
+    rw [List.map_map, List.map_map]
+    apply List.map_congr_left
+    intro d hd
+    have hd' := List.mem_range.mp hd
+    simp only [Function.comp]
+    apply Usid.Rebuild.changeCountInt_map
+    intro a ha b hb e
+    obtain ⟨ra, _, rfl⟩ := List.mem_map.mp ha
+    obtain ⟨rb, _, rfl⟩ := List.mem_map.mp hb
+    exact hinj d hd' _ (hgi d hd' ra) _ (hgi d hd' rb) e
+  obtain ⟨hperm, hstride, _⟩ := argsort_counts_is_rate sizes rate h
+  generalize hordef : argsortRev ((gridMatrix sizes rate).map changeCountRow) = ord at hperm hstride
+  have hndo : ord.Nodup := hperm.nodup_iff.mpr hnd
+  have hordlen : ord.length = sizes.length := by
+    rw [hperm.length_eq, h.1.length_eq]; simp
+  have hordmem : ∀ i, i < sizes.length → ord.getD i 0 ∈ rate := by
+    intro i hi
+    have hi' : i < ord.length := by omega
+    rw [List.getD_eq_getElem?_getD, List.getElem?_eq_getElem hi']
+    exact hperm.subset (List.getElem_mem hi')
+  -- sizes per sorted position
+  let ss := ord.map (sizeFn sizes)
+  have hsslen : ss.length = sizes.length := by simp [ss, hordlen]
+  have hss1 : ∀ s ∈ ss, 1 ≤ s := by
+    intro s hs
+    obtain ⟨e, he, rfl⟩ := List.mem_map.mp hs
+    exact (hpos e (hperm.subset he)).2
+  have hssprod : ss.prod = npoints (sizeFn sizes) rate := by
+    unfold npoints
+    exact List.Perm.prod_nat (hperm.map _)
+  -- digits per sorted position are the grid indices of the dimension at that position
+  have hdigit : ∀ i, i < sizes.length → ∀ j,
+      gridIdx (sizeFn sizes) rate j (ord.getD i 0) = Usid.Rebuild.D ss j i := by
+    intro i hi j
+    have hi' : i < ord.length := by omega
+    have he : ord.getD i 0 = ord[i] := by
+      rw [List.getD_eq_getElem?_getD, List.getElem?_eq_getElem hi']; rfl
+    have hsg : ss.getD i 1 = sizeFn sizes ord[i] := by
+      simp [ss, List.getD_eq_getElem?_getD, List.getElem?_map, List.getElem?_eq_getElem hi']
+    unfold Usid.Rebuild.D gridIdx
+    rw [hsg, he]
+    by_cases hbig : 1 < sizeFn sizes ord[i]
+    · have helt : ord[i] < sizes.length := (hpos _ (hperm.subset (List.getElem_mem hi'))).1
+      rw [← hstride ord[i] helt hbig]
+      have hsplit : ord = ord.take i ++ ord[i] :: ord.drop (i + 1) := by
+        rw [List.getElem_cons_drop, List.take_append_drop]
+      have hnotin : ord[i] ∉ ord.take i := by
+        intro hm
+        rw [hsplit] at hndo
+        exact (List.nodup_append.mp hndo).2.2 _ hm _ List.mem_cons_self rfl
+      have : strideBefore (sizeFn sizes) ord ord[i] = Usid.Rebuild.T ss i := by
+        have hs := stride_split (sizeFn sizes) (ord.take i) (ord.drop (i + 1)) ord[i] hnotin
+        rw [← hsplit] at hs
+        rw [hs]
+        unfold Usid.Rebuild.T
+        simp [ss, List.map_take]
+      rw [this]
+    · have : sizeFn sizes ord[i] = 1 := by
+        have := (hpos _ (hperm.subset (List.getElem_mem hi'))).2; omega
+      rw [this, Nat.mod_one, Nat.mod_one]
+  -- the changed rows at a column are the positions whose digit changes
+  have hchanged : ∀ j, j + 1 < npoints (sizeFn sizes) rate →
+      Usid.UV.changedAt (valueMatrix sizes rate values) ord (j + 1) =
+        (List.range ss.length).filter (fun i => Usid.Rebuild.D ss (j + 1) i != Usid.Rebuild.D ss j i) := by
+    intro j hj
+    unfold Usid.UV.changedAt
+    rw [hklen, hsslen]
+    apply List.filter_congr
+    intro i hi
+    have hi' := List.mem_range.mp hi
+    have helt : ord.getD i 0 < sizes.length := (hpos _ (hordmem i hi')).1
+    rw [hrow _ helt]
+    have hget : ∀ r, r < npoints (sizeFn sizes) rate →
+        ((gridRow (sizeFn sizes) rate (ord.getD i 0)).map
+          (fun x => (values.getD (ord.getD i 0) []).getD x 0)).getD r 0 =
+        (values.getD (ord.getD i 0) []).getD (Usid.Rebuild.D ss r i) 0 := by
+      intro r hr
+      rw [← hdigit i hi' r]
+      simp [gridRow, List.getD_eq_getElem?_getD, List.getElem?_map, List.getElem?_range hr]
+    rw [hget (j + 1) hj, show j + 1 - 1 = j by omega, hget j (by omega)]
+    by_cases hD : Usid.Rebuild.D ss (j + 1) i = Usid.Rebuild.D ss j i
+    · rw [hD]; simp
+    · have hne : (values.getD (ord.getD i 0) []).getD (Usid.Rebuild.D ss (j + 1) i) 0 ≠
+          (values.getD (ord.getD i 0) []).getD (Usid.Rebuild.D ss j i) 0 := by
+        intro e
+        apply hD
+        refine hinj _ helt _ ?_ _ ?_ e
+        · rw [← hdigit i hi' (j + 1)]; exact hgi _ helt _
+        · rw [← hdigit i hi' j]; exact hgi _ helt _
+      have h1 : ((values.getD (ord.getD i 0) []).getD (Usid.Rebuild.D ss (j + 1) i) 0 !=
+          (values.getD (ord.getD i 0) []).getD (Usid.Rebuild.D ss j i) 0) = true := by simpa using hne
+      have h2 : (Usid.Rebuild.D ss (j + 1) i != Usid.Rebuild.D ss j i) = true := by simpa using hD
+      rw [h1, h2]
+  -- the running indices at column j are the digits of j
+  have hiter : ∀ j, j < npoints (sizeFn sizes) rate →
+      Usid.Rebuild.iterCols (fun prev j => Usid.UV.rebuildStep
+        (Usid.UV.changedAt (valueMatrix sizes rate values) ord (j + 1)) prev)
+        (List.replicate (valueMatrix sizes rate values).length 0) j = (List.range ss.length).map (Usid.Rebuild.D ss j) := by
+    intro j
+    induction j with
+    | zero =>
+      intro _
+      show List.replicate _ 0 = _
+      rw [hklen, hsslen]
+      apply List.ext_getElem
+      · simp
+      · intro n h1 h2
+        simp [Usid.Rebuild.D]
+    | succ j ih =>
+      intro hj
+      show Usid.UV.rebuildStep _ (Usid.Rebuild.iterCols _ _ j) = _
+      rw [ih (by omega)]
+      exact Usid.Rebuild.odometer_step ss hss1 j (by rw [hssprod]; exact hj) _ (hchanged j hj)
+  unfold Usid.UV.createSpecIndsFromVals
+  simp only [hN, hcounts, hordef, hklen]
+  unfold gridMatrix
+  apply List.map_congr_left
+  intro d hd
+  have hd' := List.mem_range.mp hd
+  unfold gridRow
+  apply List.map_congr_left
+  intro j hj
+  have hj' := List.mem_range.mp hj
+  rw [Usid.Rebuild.rebuildCols_eq _ _ _ hNpos]
+  have hdo : d ∈ ord := hperm.symm.subset (hall d hd')
+  have hfi : ord.findIdx (· == d) < ord.length :=
+    List.findIdx_lt_length_of_exists ⟨d, hdo, by simp⟩
+  have hfe : ord.getD (ord.findIdx (· == d)) 0 = d := by
+    rw [List.getD_eq_getElem?_getD, List.getElem?_eq_getElem hfi]
+    have := List.findIdx_getElem (w := hfi)
+    simpa using this
+  have hcol : (((List.range (npoints (sizeFn sizes) rate)).map
+      (Usid.Rebuild.iterCols (fun prev j => Usid.UV.rebuildStep
+        (Usid.UV.changedAt (valueMatrix sizes rate values) ord (j + 1)) prev)
+        (List.replicate (valueMatrix sizes rate values).length 0))).getD j []) =
+      (List.range ss.length).map (Usid.Rebuild.D ss j) := by
+    rw [← hiter j hj']
+    simp [List.getD_eq_getElem?_getD, List.getElem?_map, List.getElem?_range hj']
+  rw [hcol]
+  have hfi' : ord.findIdx (· == d) < ss.length := by rw [hsslen]; omega
+  have : ((List.range ss.length).map (Usid.Rebuild.D ss j)).getD (ord.findIdx (· == d)) 0 =
+      Usid.Rebuild.D ss j (ord.findIdx (· == d)) := by
+    simp [List.getD_eq_getElem?_getD, List.getElem?_map, List.getElem?_range hfi']
+  rw [this, ← hdigit _ (by omega) j, hfe]
+
+/-- the hypotheses of `rebuild_indices` are satisfiable by a non-trivial grid -/
+example : ValidGrid [2, 3] [1, 0] ∧ ∀ d, d < [2, 3].length →
+    (([[5, 7], [10, 30, 20]] : List (List Int)).getD d []).length = [2, 3].getD d 1 ∧
+    (([[5, 7], [10, 30, 20]] : List (List Int)).getD d []).Nodup := by
+  refine ⟨⟨by decide, by decide⟩, ?_⟩
+  intro d hd
+  match d, hd with
+  | 0, _ => decide
+  | 1, _ => decide
 
 example : gridMatrix [2, 3] [1, 0] = [[0, 0, 0, 1, 1, 1], [0, 1, 2, 0, 1, 2]] := by decide
 example : (gridMatrix [2, 3, 1] [1, 2, 0]).map changeCountRow = [2, 6, 0] := by decide
